@@ -418,9 +418,9 @@ func (g *Gen) hugeValue(w int) (string, bool) {
 	switch {
 	case k < 20:
 		n = []int{2049, 4097, 8193}[g.r.Intn(3)]
-	case k < 22:
+	case k < 24:
 		n = 65537
-	case k < 23:
+	case k < 28:
 		n = 1<<20 + 1 + g.r.Intn(64)
 	default:
 		return "", false
